@@ -24,14 +24,15 @@ def kinds():
 
 def factory_task(ck, task):
     P = Program(ck.repo)
-    (name, cls, code), (E, S, crc, large) = task
+    (name, cls, code), (E, S, crc, large), *sm = task
+    sm = sm[0] if sm else 0          # segment metadata flag (File Data only)
     H = CF.header_len(E, S)
     data = DEC.DATA
     fq = P.cls(f"{HELPER}.PduFactory").qual
-    tag = f"{name} E={E},S={S},crc={crc},large={large}"
+    tag = f"{name} E={E},S={S},crc={crc},large={large}" + (",segmeta=1" if sm else "")
 
     def interp():
-        it = CF.decode_interp(P, "data", b0=CF.octet0(1 if code is None else 0, 0, 0, crc, large), b3=CF.octet3(E, S))
+        it = CF.decode_interp(P, "data", b0=CF.octet0(1 if code is None else 0, 0, 0, crc, large), b3=CF.octet3(E, S, seg_meta=sm))
         if code is not None:
             it.concrete_bytes[("data", H)] = code
         return it
@@ -65,6 +66,14 @@ def factory_task(ck, task):
     DEC.check_fields(ck, it, env, got, "PduFactory.from_raw", tag, [
         ("pdu_header.source_entity_id.value", "bits", 32, 8 * E), ("pdu_header.transaction_seq_num.value", "bits", 32 + 8 * E, 8 * S),
         ("pdu_header.dest_entity_id.value", "bits", 32 + 8 * E + 8 * S, 8 * E)])
+    if code is None and not env.dead:
+        # re-packing identically needs the decoded object to report (and re-emit) the declared length; for File Data the
+        # length is recomputed by the setters the decoder runs, so it is compared with the declared one here
+        _sc = {}
+        pl = D.simplify(D.simplify(read_path(it, env, got, "packet_len"), env.facts, _sc), env.facts, _sc)
+        from ..linear import linearize, Lin
+        R.check_lin_equal(ck, pl, linearize(CF.data_field_len_term(data)) + Lin({}, H), "PduFactory.from_raw",
+                          f"the decoded File Data PDU reports the declared length, so that it re-packs to the same octets ({tag})", rule="L-LEN")
     # inspectors on the same octets
     it3 = interp(); env3 = Env()
     pt = call_method(it3, env3, T("class", fq), "pdu_type", [data])
@@ -122,16 +131,17 @@ def run(ck):
         "identity on the diagonal, TypeError on every path elsewhere. pdu_type / pdu_directive_type are checked per bit "
         "symbolically and for all 16 width pairs.")
     for r, t in (("D-TABLE", "factory / holder tables agree with the classes and are exhaustive"), ("W-VAL", "inspectors read the reference bits / offset"),
-                 ("G-REFUSE", "wrong kind => TypeError on all paths; undefined codes => ValueError"), ("E-ESC", "documented exceptions only"), ("X-BUF", "reads in bounds")):
+                 ("G-REFUSE", "wrong kind => TypeError on all paths; undefined codes => ValueError"), ("E-ESC", "documented exceptions only"), ("L-LEN", "decoded File Data PDU reports the declared length"), ("X-BUF", "reads in bounds")):
         ck.rule(r, t)
     ck.trusted += ["reference code table in spverif/pdus.py (CCSDS 727.0-B-5 table 5-4)"]
     ck.assumptions += ["round-trip equality of the decoded PDU with the packed one is inherited from C06/C07 (the factory's result is shown to be the decoder's result)"]
     cases = PD.config_cases(ck.tier)
-    run_parallel(ck, "spverif.props.c12", "factory_task", [(k, c) for k in kinds() for c in (cases if ck.tier == "thorough" else cases[:3] + cases[4:5])])
+    sel = cases if ck.tier == "thorough" else cases[:3] + cases[4:5]
+    run_parallel(ck, "spverif.props.c12", "factory_task", [(k, c) for k in kinds() for c in sel] + [(k, c, 1) for k in kinds() if k[2] is None for c in sel])
     run_parallel(ck, "spverif.props.c12", "holder_task", [(k[0],) for k in kinds()])
     cnt = ck.analysed.get("factory analyses", 0)
     ck.floors = [f for f in ck.floors if f[0] != "factory analyses"]
-    ck.floor("factory analyses", cnt, 8 * 4)
+    ck.floor("factory analyses", cnt, 9 * 4)
 
     # ---------------------------------------------------------------- exhaustiveness of the code table
     it = new_interp(P)
